@@ -144,9 +144,33 @@ def make_oracle(records, known_hits):
             if r:
                 return i0 + 4, 'the re-read configuration differs: ' + r
             if outs[i0 + 5] != t1:
+                # recorded finding: with scientific notation a SUBNORMAL float may re-render differently after the round
+                # trip (the p-digit rendering of a subnormal is not a fixed point of printf∘strtod; proved for normal
+                # values: C01_float_idem_sci, refuted for subnormals: C01_sci_denormal).  Only that exact situation is
+                # excused: every differing line must be a subnormal float under scientific notation.
+                subn = contains(a, lambda n: n.ty == 4 and n.val is not None and (int(n.val, 16) >> 52) & 0x7ff == 0 and (int(n.val, 16) & ((1 << 52) - 1)) != 0)
+                if sci and subn and K_DENORM in KNOWN_LISTED and only_float_tokens_differ(t1, outs[i0 + 5]):
+                    k = K_DENORM + ': ' + KNOWN_LISTED[K_DENORM]
+                    if k not in known_hits:
+                        known_hits.append(k)
+                    continue
                 return i0 + 5, 'writing the re-read configuration does not reproduce the same text'
         return None
     return oracle
+
+K_DENORM = 'C01:subnormal-scientific-rewrite'
+KNOWN_LISTED = {f['key']: f['what'] for f in vlib.known_findings('C01')}
+
+def only_float_tokens_differ(o1, o2):
+    """the two `write` answers (hex of the text) differ only in tokens that are float literals with an exponent"""
+    try:
+        a = bytes.fromhex(o1.split(' ')[-1]).split(); b = bytes.fromhex(o2.split(' ')[-1]).split()
+    except ValueError:
+        return False
+    if len(a) != len(b):
+        return False
+    isf = re.compile(rb'^-?[0-9.]+e[-+][0-9]+[;,]?$')
+    return all(x == y or (isf.match(x) and isf.match(y)) for x, y in zip(a, b))
 
 def option_ops(rng):
     return ['set_options %d' % (rng.below(64) | (rng.below(2) << 7)),
@@ -254,6 +278,17 @@ def run_C01(ctx):
         impl.do('add / %s 2' % hexs(b'true'))
         roundtrip_ops(impl, rng, stats, rec)
     correspondence(ctx, [fn4], props.proj_full, make_oracle(rec, known_hits), 'C01 write/read round trip', 'bool-names')
+    # the subnormal finding, on its specific inputs (and neighbours that must round-trip: the same values in the default
+    # notation, normal values under scientific notation at every precision class)
+    rec = []
+    def fn5(impl, rng, stats):
+        for sci in (1, 0):
+            for prec in (0, 1, 2, 6, 15):
+                impl.do('init'); impl.do('set_options %d' % (0x20 * sci)); impl.do('set_float_precision %d' % prec)
+                for i, bits in enumerate((21, 20, 1, 0x000FFFFFFFFFFFFF, 0x0010000000000000, 0x3FF8000000000000, 0x7FEFFFFFFFFFFFFF, 0x8000000000000015)):
+                    impl.do('add / %s 4' % hexs(b'd%d' % i)); impl.do('set_float /%d %016x' % (i, bits))
+                roundtrip_ops(impl, rng, stats, rec)
+    correspondence(ctx, [fn5], props.proj_full, make_oracle(rec, known_hits), 'C01 write/read round trip', 'subnormals')
 
 def gen_api_build(impl, rng):
     """a moderately sized tree of documented types through the API"""
